@@ -108,8 +108,8 @@ static void Array_New(var self, var args) {
   struct Array* a = self;
   a->type   = cast(get(args, $I(0)), Type);
   a->tsize  = Array_Size_Round(size(a->type));
-  a->nitems = len(args)-1;
-  a->nslots = a->nitems;
+  a->nitems = 0;
+  a->nslots = len(args)-1;
   
   if (a->nslots is 0) {
     a->data = NULL;
@@ -124,9 +124,12 @@ static void Array_New(var self, var args) {
   }
 #endif
   
-  for(size_t i = 0; i < a->nitems; i++) {
+  /* an item counts once it is constructed: a collection started by an
+  ** element's own assign must not walk slots that hold nothing yet */
+  for(size_t i = 0; i < a->nslots; i++) {
     Array_Alloc(a, i);
     assign(Array_Item(a, i), get(args, $I(i+1)));  
+    a->nitems = i+1;
   }
   
 }
@@ -181,8 +184,8 @@ static void Array_Assign(var self, var obj) {
   if (implements_method(obj, Len, len)
   and implements_method(obj, Get, get)) {
   
-    a->nitems = len(obj);
-    a->nslots = a->nitems;
+    a->nitems = 0;
+    a->nslots = len(obj);
     
     if (a->nslots is 0) {
       a->data = NULL;
@@ -197,9 +200,11 @@ static void Array_Assign(var self, var obj) {
     }
   #endif
     
-    for(size_t i = 0; i < a->nitems; i++) {
+    /* an item counts once it is constructed (see Array_New) */
+    for(size_t i = 0; i < a->nslots; i++) {
       Array_Alloc(a, i);
       assign(Array_Item(a, i), get(obj, $I(i)));  
+      a->nitems = i+1;
     }
   
   } else {
